@@ -35,7 +35,9 @@ class UserRuntimeError(RuntimeError):
         self.tag = tag
 
 
-BUILTIN_EXC = {2: TypeError, 3: KeyError, 4: LookupError, 5: ZeroDivisionError, 6: AttributeError, 7: StopIteration, 8: AssertionError, 9: IndexError}
+BUILTIN_EXC = {2: TypeError, 3: KeyError, 4: LookupError, 5: ZeroDivisionError, 6: AttributeError, 7: StopIteration, 8: AssertionError, 9: IndexError,
+               40: OverflowError, 41: ArithmeticError, 42: FloatingPointError, 43: NotImplementedError, 44: OSError, 45: RuntimeError, 46: MemoryError,
+               47: BufferError, 48: EOFError, 49: ImportError, 50: NameError, 51: ReferenceError, 52: SystemError, 53: UnicodeError, 54: TimeoutError, 55: GeneratorExit}
 
 
 def make_exc(tag):
